@@ -14,6 +14,7 @@
   legitimately does not re-emit its `std.trace` output.
 -/
 import RsjProofs.ThunkHistory
+import RsjProofs.ThunkReeval
 namespace Rsj.Thunk
 
 /-! The invariant ("memoisation consistency").
@@ -67,6 +68,14 @@ theorem C11_reeval_same {c : Code} {limit t : Nat} {s : St} (hs : Cons c s)
   obtain ⟨h1, l1⟩ := evalReq_cons (limit := limit) (t := t) hs
   obtain ⟨h2, l2⟩ := runHistory_cons (limit := limit) qs h1
   exact evalReq_le h2.just (l1.trans l2) hr
+
+/-- **C11 reeval_same, immediate form.** Evaluating the same thunk again right
+    away returns the same outcome as the first time for EVERY outcome —
+    StackOverflow included (no request in between that could have memoised
+    sub-results) — on any quiescent store, consistent or not. -/
+theorem C11_reeval_immediate {c : Code} {limit t : Nat} {s : St} (hq : Quiet s) :
+    (evalReq c limit t (evalReq c limit t s).2).1 = (evalReq c limit t s).1 :=
+  evalReq_reeval hq
 
 /-- **C11 history_independent.** For every history on one long-lived store
     started pristine, the `i`-th outcome equals the outcome of that request on
@@ -169,6 +178,8 @@ open Rsj.Thunk in
 #print axioms C11_memo_is_denotation
 open Rsj.Thunk in
 #print axioms C11_reeval_same
+open Rsj.Thunk in
+#print axioms C11_reeval_immediate
 open Rsj.Thunk in
 #print axioms C11_history_independent
 open Rsj.Thunk in
